@@ -304,6 +304,15 @@ class ExprMixin:
         from . import pathmodel
         if isinstance(op, ast.Div) and pathmodel.is_path(a) and isinstance(b, Val) and isinstance(b.ty, TStr):
             return pathmodel.join(self, st, a, b, self.path_roots(st))
+        if isinstance(op, ast.Add) and isinstance(a, Val) and isinstance(b, Val) and \
+                (isinstance(a.ty, TOpt) or isinstance(b.ty, TOpt)):
+            # None + x is a TypeError: obligation, then the inner values
+            if isinstance(a.ty, TOpt):
+                self.check(st, z3.Not(opt_isnone(a)), "safe", "not-none@+", node)
+                a = opt_inner(a)
+            if isinstance(b.ty, TOpt):
+                self.check(st, z3.Not(opt_isnone(b)), "safe", "not-none@+", node)
+                b = opt_inner(b)
         if isinstance(op, ast.Add):
             if isinstance(a, PyList) and isinstance(b, PyList):
                 return PyList(a.items + b.items)
@@ -409,6 +418,9 @@ class ExprMixin:
                     yield st1, base
                     continue
                 present = [p for p in parts if p is not None]
+                if isinstance(base, Val) and isinstance(base.ty, TOpt):
+                    self.check(st1, z3.Not(opt_isnone(base)), "safe", "not-none@slice", node)
+                    base = opt_inner(base)
                 for st2, vs in self.ev_list(present, st1):
                     if isinstance(vs, Raise):
                         yield st2, vs
